@@ -95,13 +95,14 @@ type Exec struct {
 	pairSrc, pairIg Term
 	rowResults   map[string]*rowResult
 	nCommitSites int
+	heapTypes    map[string]types.Type
 }
 
 func NewExec(w *World) *Exec {
 	x := &Exec{w: w, sc: NewScript(), structs: map[string]*structInfo{}, structBySort: map[Sort]*structInfo{},
 		strLits: map[string]Term{}, typeTags: map[string]int{}, heapSorts: map[string]Sort{},
 		assumptions: map[string]bool{}, ghostInit: map[string]Term{}, oblCount: map[string]int{},
-		modCache: map[*ssa.Function]*modSet{}, specs: map[string]*compiledSpec{}, dynModels: map[string]libModel{}, opaqueSpecs: map[string]bool{}, unfolded: map[string]bool{}, rowResults: map[string]*rowResult{}}
+		modCache: map[*ssa.Function]*modSet{}, specs: map[string]*compiledSpec{}, dynModels: map[string]libModel{}, opaqueSpecs: map[string]bool{}, unfolded: map[string]bool{}, rowResults: map[string]*rowResult{}, heapTypes: map[string]types.Type{}}
 	x.sc.Decl("preamble", preamble)
 	return x
 }
